@@ -11,7 +11,7 @@ no dependency line carries `-j`, every name has one declared version, and `max_d
 namespace EupsModel.Setup
 
 def NoJust (db : Db) (S : Name → Prop) : Prop :=
-  ∀ d ∈ db.decls, S d.name → ∀ g n o j v x t, (g, Act.dep n o j v x t) ∈ d.table → j = false
+  ∀ d ∈ db.decls, S d.name → ∀ g n o j v x t kl, (g, Act.dep n o j v x t kl) ∈ d.table → j = false
 
 def OneVersion (db : Db) (S : Name → Prop) : Prop :=
   ∀ d ∈ db.decls, ∀ d' ∈ db.decls, S d.name → d'.name = d.name → d'.ver = d.ver
@@ -40,7 +40,7 @@ theorem rec_none_of_sub {e e' : Env} (hs : Sub e' e) (n : Name) (h : e.rec? n = 
 /-- when a product of `S` loses its record during the run, everything its table names is without a record at the end -/
 def Cleared (cfg : Cfg) (S : Name → Prop) (e e' : Env) : Prop :=
   ∀ p v, S p → e.rec? p = some v → e'.rec? p = none →
-    ∀ m o j x y t, Act.dep m o j x y t ∈ tableOf cfg (p, v) → e'.rec? m = none
+    ∀ m o j x y t kl, Act.dep m o j x y t kl ∈ tableOf cfg (p, v) → e'.rec? m = none
 
 def UnClear (cfg : Cfg) (S : Name → Prop) (rec : Rec) : Prop :=
   ∀ depth vro n ver vexpr s s', S n → WellOwned cfg s.env → RecsDeclared cfg.db s.env →
@@ -48,13 +48,13 @@ def UnClear (cfg : Cfg) (S : Name → Prop) (rec : Rec) : Prop :=
 
 theorem cleared_trans {cfg : Cfg} {S : Name → Prop} {a b c : Env} (h1 : Cleared cfg S a b) (h2 : Cleared cfg S b c)
     (hba : Sub b a) (hcb : Sub c b) : Cleared cfg S a c := by
-  intro p v hp hr hn m o j x y t hline
+  intro p v hp hr hn m o j x y t kl hline
   cases hb : b.rec? p with
-  | none => exact rec_none_of_sub hcb m (h1 p v hp hr hb m o j x y t hline)
+  | none => exact rec_none_of_sub hcb m (h1 p v hp hr hb m o j x y t kl hline)
   | some w =>
     have : w = v := by have := hba.recs p w hb; rw [hr] at this; exact (Option.some.inj this).symm
     subst this
-    exact h2 p w hp hb hn m o j x y t hline
+    exact h2 p w hp hb hn m o j x y t kl hline
 
 theorem acts_false_clear (cfg : Cfg) (S : Name → Prop) (hmd : cfg.maxDepth = none) (rec : Rec) (hun : UnSpec cfg rec)
     (hunf : ∀ depth noRec vro n ver vexpr s s', rec false depth noRec vro n ver vexpr s ≠ .raised s' ∧
@@ -62,9 +62,9 @@ theorem acts_false_clear (cfg : Cfg) (S : Name → Prop) (hmd : cfg.maxDepth = n
     (hunsets : ∀ depth noRec vro n ver vexpr s s', WellOwned cfg s.env →
       rec false depth noRec vro n ver vexpr s = .ok s' → s'.env.rec? n = none)
     (hrec : UnClear cfg S rec) (depth : Nat) (vro : List VroEnt) (d : Decl) (l : List Act)
-    (hl : ∀ n o j v x t, Act.dep n o j v x t ∈ l → S n ∧ j = false) :
+    (hl : ∀ n o j v x t kl, Act.dep n o j v x t kl ∈ l → S n ∧ j = false) :
     ∀ s s', WellOwned cfg s.env → RecsDeclared cfg.db s.env → acts rec cfg false depth false vro d l s = .ok s' →
-      Cleared cfg S s.env s'.env ∧ (∀ n o j v x t, Act.dep n o j v x t ∈ l → s'.env.rec? n = none) := by
+      Cleared cfg S s.env s'.env ∧ (∀ n o j v x t kl, Act.dep n o j v x t kl ∈ l → s'.env.rec? n = none) := by
   induction l with
   | nil =>
     intro s s' _ _ h
@@ -73,12 +73,12 @@ theorem acts_false_clear (cfg : Cfg) (S : Name → Prop) (hmd : cfg.maxDepth = n
     intro p v _ hr hn
     rw [hr] at hn; cases hn
   | cons a rest ih =>
-    have hl' : ∀ n o j v x t, Act.dep n o j v x t ∈ rest → S n ∧ j = false :=
-      fun n o j v x t hm => hl n o j v x t (List.mem_cons_of_mem _ hm)
+    have hl' : ∀ n o j v x t kl, Act.dep n o j v x t kl ∈ rest → S n ∧ j = false :=
+      fun n o j v x t kl hm => hl n o j v x t kl (List.mem_cons_of_mem _ hm)
     intro s s' hw hd h
-    by_cases hdep : ∃ n o j v x t, a = .dep n o j v x t
-    · obtain ⟨n, o, j, v, x, t, rfl⟩ := hdep
-      obtain ⟨hSn, hj⟩ := hl n o j v x t (by simp)
+    by_cases hdep : ∃ n o j v x t kl, a = .dep n o j v x t kl
+    · obtain ⟨n, o, j, v, x, t, kl, rfl⟩ := hdep
+      obtain ⟨hSn, hj⟩ := hl n o j v x t kl (by simp)
       subst hj
       simp only [acts, hmd, Bool.false_or] at h
       simp only [reduceCtorEq, decide_false, Bool.false_eq_true, if_false] at h
@@ -90,12 +90,12 @@ theorem acts_false_clear (cfg : Cfg) (S : Name → Prop) (hmd : cfg.maxDepth = n
         obtain ⟨hc2, hb2⟩ := ih hl' s1 s' hw1 hd1 h
         obtain ⟨_, hs2, _, _⟩ := acts_false_spec cfg rec hun (fun _ => True) depth false vro d rest s1 s' hw1 (noResidue_true _) h
         refine ⟨cleared_trans (hrec _ _ _ _ _ _ _ hSn hw hd hr1) hc2 hs1 hs2, ?_⟩
-        intro n' o' j' v' x' t' hm
+        intro n' o' j' v' x' t' kl' hm
         simp only [List.mem_cons] at hm
         rcases hm with hm | hm
         · cases hm
           exact rec_none_of_sub hs2 n (hunsets _ _ _ _ _ _ _ _ hw hr1)
-        · exact hb2 n' o' j' v' x' t' hm
+        · exact hb2 n' o' j' v' x' t' kl' hm
       · cases h
       · rename_i s1 hr1
         simp only [Bool.false_and, Bool.false_eq_true, if_false] at h
@@ -104,15 +104,15 @@ theorem acts_false_clear (cfg : Cfg) (S : Name → Prop) (hmd : cfg.maxDepth = n
         obtain ⟨_, hs2, _, _⟩ := acts_false_spec cfg rec hun (fun _ => True) depth false vro d rest
           ⟨s.env, s.aliases, s.unaliased, s1.already⟩ s' hw (noResidue_true _) h
         refine ⟨hc2, ?_⟩
-        intro n' o' j' v' x' t' hm
+        intro n' o' j' v' x' t' kl' hm
         simp only [List.mem_cons] at hm
         rcases hm with hm | hm
         · cases hm
           exact rec_none_of_sub hs2 n hnone
-        · exact hb2 n' o' j' v' x' t' hm
+        · exact hb2 n' o' j' v' x' t' kl' hm
       · rename_i s1 hr1
         exact absurd hr1 (hunf _ _ _ _ _ _ _ _).1
-    · have hnd : ∀ n o j v x t, a ≠ .dep n o j v x t := fun n o j v x t e => hdep ⟨n, o, j, v, x, t, e⟩
+    · have hnd : ∀ n o j v x t kl, a ≠ .dep n o j v x t kl := fun n o j v x t kl e => hdep ⟨n, o, j, v, x, t, kl, e⟩
       rw [acts_cons_nondep rec cfg false depth false vro d a rest s hnd] at h
       obtain ⟨hs1, hrec1, _, _⟩ := apply_false_spec d.prod a s
       have hw1 := hw.of_sub hs1
@@ -120,11 +120,11 @@ theorem acts_false_clear (cfg : Cfg) (S : Name → Prop) (hmd : cfg.maxDepth = n
       refine ⟨?_, ?_⟩
       · intro p v hp hr hn
         exact hc2 p v hp (by rw [hrec1]; exact hr) hn
-      · intro n' o' j' v' x' t' hm
+      · intro n' o' j' v' x' t' kl' hm
         simp only [List.mem_cons] at hm
         rcases hm with hm | hm
-        · exact absurd hm.symm (hnd n' o' j' v' x' t')
-        · exact hb2 n' o' j' v' x' t' hm
+        · exact absurd hm.symm (hnd n' o' j' v' x' t' kl')
+        · exact hb2 n' o' j' v' x' t' kl' hm
 
 theorem setup_false_clear (cfg : Cfg) (S : Name → Prop) (hmd : cfg.maxDepth = none) (hcl : Closed cfg.db S)
     (hnj : NoJust cfg.db S) : ∀ fuel, UnClear cfg S (setup cfg fuel) := by
@@ -144,17 +144,17 @@ theorem setup_false_clear (cfg : Cfg) (S : Name → Prop) (hmd : cfg.maxDepth = 
       have hs0 : Sub ({ s.env with dirs := aunset s.env.dirs d.name, recs := aunset s.env.recs d.name } : Env) s.env :=
         ⟨fun _ _ h => h, fun _ _ h => h, fun n x h => (aget_aunset_some _ _ _ _ h).1,
          fun n v h => (aget_aunset_some _ _ _ _ h).1⟩
-      have hl : ∀ n' o j v x t, Act.dep n' o j v x t ∈ d.actions cfg.exact → S n' ∧ j = false := by
-        intro n' o j v x t hm
+      have hl : ∀ n' o j v x t kl, Act.dep n' o j v x t kl ∈ d.actions cfg.exact → S n' ∧ j = false := by
+        intro n' o j v x t kl hm
         obtain ⟨g, hg⟩ := mem_actions d cfg.exact _ hm
-        exact ⟨hcl d hdmem hSd g n' o j v x t hg, hnj d hdmem hSd g n' o j v x t hg⟩
+        exact ⟨hcl d hdmem hSd g n' o j v x t kl hg, hnj d hdmem hSd g n' o j v x t kl hg⟩
       obtain ⟨hc2, hb2⟩ := acts_false_clear cfg S hmd (setup cfg k) (setup_false_spec cfg k)
         (fun depth noRec vro n ver vexpr s s' => setup_unfail cfg k depth noRec vro n ver vexpr s s')
         (fun depth noRec vro n ver vexpr s s' hw h => setup_false_unsets cfg k depth noRec vro n ver vexpr s s' hw h)
         ih depth vro d (d.actions cfg.exact) hl
         ⟨{ s.env with dirs := aunset s.env.dirs d.name, recs := aunset s.env.recs d.name }, s.aliases, s.unaliased, s.already⟩
         s' (hw.of_sub hs0) (hd.of_sub hs0) h
-      intro p v hp hr hn m o j x y t hline
+      intro p v hp hr hn m o j x y t kl hline
       by_cases hpd : p = d.name
       · subst hpd
         rw [hname] at hr
@@ -163,8 +163,8 @@ theorem setup_false_clear (cfg : Cfg) (S : Name → Prop) (hmd : cfg.maxDepth = 
         subst hv
         have : tableOf cfg (d.name, d.ver) = d.actions cfg.exact := tableOf_canon cfg d hc
         rw [this] at hline
-        exact hb2 m o j x y t hline
-      · refine hc2 p v hp ?_ hn m o j x y t hline
+        exact hb2 m o j x y t kl hline
+      · refine hc2 p v hp ?_ hn m o j x y t kl hline
         show aget (aunset s.env.recs d.name) p = some v
         rw [aget_aunset_other _ _ _ hpd]; exact hr
 
@@ -177,13 +177,13 @@ namespace EupsModel.Setup
 /-- every set-up product of `S` other than `top` is named by a line of the table of a set-up product of `S` -/
 def Supp (cfg : Cfg) (S : Name → Prop) (top : Name) (e : Env) : Prop :=
   ∀ m v, S m → e.rec? m = some v →
-    m = top ∨ ∃ p w, S p ∧ e.rec? p = some w ∧ ∃ o j x y t, Act.dep m o j x y t ∈ tableOf cfg (p, w)
+    m = top ∨ ∃ p w, S p ∧ e.rec? p = some w ∧ ∃ o j x y t kl, Act.dep m o j x y t kl ∈ tableOf cfg (p, w)
 
 def Grow (e e' : Env) : Prop := ∀ m v, e.rec? m = some v → e'.rec? m = some v
 
 /-- who asked for `n`: it is the requested product, or a line of the table of a set-up product of `S` names it -/
 def Asked (cfg : Cfg) (S : Name → Prop) (top : Name) (e : Env) (n : Name) : Prop :=
-  n = top ∨ ∃ p w, S p ∧ e.rec? p = some w ∧ ∃ o j x y t, Act.dep n o j x y t ∈ tableOf cfg (p, w)
+  n = top ∨ ∃ p w, S p ∧ e.rec? p = some w ∧ ∃ o j x y t kl, Act.dep n o j x y t kl ∈ tableOf cfg (p, w)
 
 def SuppSpec (cfg : Cfg) (S : Name → Prop) (top : Name) (rec : Rec) : Prop :=
   ∀ depth noRec vro n ver vexpr s s', S n → Asked cfg S top s.env n →
@@ -210,19 +210,19 @@ theorem acts_true_supp (cfg : Cfg) (S : Name → Prop) (top : Name) (hcl : Close
   | cons a rest ih =>
     have hl' : ∀ a ∈ rest, a ∈ d.actions cfg.exact := fun a hm => hl a (List.mem_cons_of_mem _ hm)
     intro s s' ha hd hs hr h
-    by_cases hdep : ∃ n o j v x t, a = .dep n o j v x t
-    · obtain ⟨n, o, j, v, x, t, rfl⟩ := hdep
-      have hline : Act.dep n o j v x t ∈ tableOf cfg (d.name, d.ver) := by
+    by_cases hdep : ∃ n o j v x t kl, a = .dep n o j v x t kl
+    · obtain ⟨n, o, j, v, x, t, kl, rfl⟩ := hdep
+      have hline : Act.dep n o j v x t kl ∈ tableOf cfg (d.name, d.ver) := by
         have : tableOf cfg (d.name, d.ver) = d.actions cfg.exact := tableOf_canon cfg d hc
         rw [this]; exact hl _ (List.mem_cons_self)
       obtain ⟨g, hg⟩ := mem_actions d cfg.exact _ (hl _ (List.mem_cons_self))
-      have hSn : S n := hcl d (lookup_some cfg.db d.prod d hc).1 hSd g n o j v x t hg
+      have hSn : S n := hcl d (lookup_some cfg.db d.prod d hc).1 hSd g n o j v x t kl hg
       simp only [acts] at h
       split at h
       · exact ih hl' s s' ha hd hs hr h
       · split at h
         · rename_i s1 hr1
-          obtain ⟨hs1, hg1, hd1⟩ := hrec _ _ _ _ _ _ _ _ hSn (Or.inr ⟨d.name, d.ver, hSd, hr, o, j, v, x, t, hline⟩)
+          obtain ⟨hs1, hg1, hd1⟩ := hrec _ _ _ _ _ _ _ _ hSn (Or.inr ⟨d.name, d.ver, hSd, hr, o, j, v, x, t, kl, hline⟩)
             (Or.inl (Nat.succ_pos _)) ha hd hs hr1
           obtain ⟨hs2, hg2, hd2⟩ := ih hl' s1 s' (hal _ _ _ _ _ _ _ _ _ ha (by rw [hr1]; rfl)) hd1 hs1 (hg1 _ _ hr) h
           exact ⟨hs2, fun m w hm => hg2 m w (hg1 m w hm), hd2⟩
@@ -237,7 +237,7 @@ theorem acts_true_supp (cfg : Cfg) (S : Name → Prop) (top : Name) (hcl : Close
           split at h
           · cases h
           · exact ih hl' ⟨s.env, s.aliases, s.unaliased, s1.already⟩ s' h1 hd hs hr h
-    · have hnd : ∀ n o j v x t, a ≠ .dep n o j v x t := fun n o j v x t e => hdep ⟨n, o, j, v, x, t, e⟩
+    · have hnd : ∀ n o j v x t kl, a ≠ .dep n o j v x t kl := fun n o j v x t kl e => hdep ⟨n, o, j, v, x, t, kl, e⟩
       rw [acts_cons_nondep rec cfg true depth noRec vro d a rest s hnd] at h
       have hrecs : ∀ n, (a.apply true d.prod s).env.rec? n = s.env.rec? n := fun n => apply_rec? true d.prod a s n
       obtain ⟨hs2, hg2, hd2⟩ := ih hl' _ s' (by simpa using ha)
@@ -293,7 +293,7 @@ theorem install_supp (cfg : Cfg) (rank : Name → Nat) (hdag : NameDag cfg.db ra
       rcases hdepth with h1 | h1
       · exact h1
       · rw [hsp] at h1; cases h1
-    have hskip : ((sd.ver == d.ver || sd.dir == d.dir) && decide (depth > 0)) = true := by simp [hver, hpos]
+    have hskip : ((sd.ver.1 == d.ver.1 || sd.dir == d.dir) && decide (depth > 0)) = true := by simp [hver, hpos]
     simp only [hskip, if_true] at h
     simp at h; subst h
     exact ⟨hs, fun _ _ h => h, hd⟩
@@ -306,12 +306,12 @@ theorem setup_supp (cfg : Cfg) (rank : Name → Nat) (hdag : NameDag cfg.db rank
   | succ k ih =>
     intro depth noRec vro n ver vexpr s s' hSn hask hdepth ha hd hs h
     rw [setup_succ_true] at h
-    cases hres : resolve cfg.db cfg.keep s.already n ver vexpr depth vro.length vro with
+    cases hres : resolve cfg.db cfg.path cfg.keep s.already n ver vexpr depth vro.length vro with
     | none => rw [hres] at h; cases h
     | error => rw [hres] at h; cases h
     | found d reason =>
       rw [hres] at h
-      obtain ⟨hc, hname⟩ := resolve_spec cfg.db cfg.keep s.already ha n ver vexpr depth _ _ _ _ hres
+      obtain ⟨hc, hname⟩ := resolve_spec cfg.db cfg.path cfg.keep s.already ha n ver vexpr depth _ _ _ _ hres
       have henv := register_env cfg depth d reason s
       have := install_supp cfg rank hdag S top hcl hone (setup cfg k) (setup_alOK cfg k) ih depth noRec vro d reason hc
         (by rw [hname]; exact hSn) (register cfg depth d reason s) s' (by rw [henv, hname]; exact hask)
@@ -327,16 +327,16 @@ namespace EupsModel.Setup
 def noJustB (db : Db) : Bool :=
   db.decls.all fun d => d.table.all fun ga =>
     match ga.2 with
-    | .dep _ _ j _ _ _ => !j
+    | .dep _ _ j _ _ _ _ => !j
     | _ => true
 
 theorem noJust_of_check (db : Db) (S : Name → Prop) (h : noJustB db = true) : NoJust db S := by
-  intro d hd _ g n o j v x t hg
+  intro d hd _ g n o j v x t kl hg
   unfold noJustB at h
   rw [List.all_eq_true] at h
   have h1 := h d hd
   rw [List.all_eq_true] at h1
-  have h2 := h1 (g, Act.dep n o j v x t) hg
+  have h2 := h1 (g, Act.dep n o j v x t kl) hg
   simpa using h2
 
 def oneVersionB (db : Db) : Bool :=
@@ -377,35 +377,35 @@ theorem tableOf_mem (cfg : Cfg) (p : Name) (w : Ver) (a : Act) (h : a ∈ tableO
 theorem supp_of_cleared {cfg : Cfg} {S : Name → Prop} {top : Name} {e e' : Env} (hs : Supp cfg S top e)
     (hc : Cleared cfg S e e') (hsub : Sub e' e) : Supp cfg S top e' := by
   intro m v hm hr
-  rcases hs m v hm (hsub.recs m v hr) with h1 | ⟨p, w, hp, hpw, o, j, x, y, t, hline⟩
+  rcases hs m v hm (hsub.recs m v hr) with h1 | ⟨p, w, hp, hpw, o, j, x, y, t, kl, hline⟩
   · exact Or.inl h1
   · right
     cases hpe : e'.rec? p with
     | none =>
-      have := hc p w hp hpw hpe m o j x y t hline
+      have := hc p w hp hpw hpe m o j x y t kl hline
       rw [hr] at this; cases this
     | some w' =>
       have : w' = w := by have := hsub.recs p w' hpe; rw [hpw] at this; exact (Option.some.inj this).symm
       subst this
-      exact ⟨p, w', hp, hpe, o, j, x, y, t, hline⟩
+      exact ⟨p, w', hp, hpe, o, j, x, y, t, kl, hline⟩
 
 theorem asked_rank (cfg : Cfg) (rank : Name → Nat) (hdag : NameDag cfg.db rank) (S : Name → Prop) (top : Name) (e : Env)
     (n : Name) (h : Asked cfg S top e n) :
-    n = top ∨ ∃ p w, S p ∧ e.rec? p = some w ∧ rank n < rank p ∧ ∃ o j x y t, Act.dep n o j x y t ∈ tableOf cfg (p, w) := by
-  rcases h with h | ⟨p, w, hp, hpw, o, j, x, y, t, hline⟩
+    n = top ∨ ∃ p w, S p ∧ e.rec? p = some w ∧ rank n < rank p ∧ ∃ o j x y t kl, Act.dep n o j x y t kl ∈ tableOf cfg (p, w) := by
+  rcases h with h | ⟨p, w, hp, hpw, o, j, x, y, t, kl, hline⟩
   · exact Or.inl h
   · obtain ⟨dp, hdp, hname, g, hg⟩ := tableOf_mem cfg p w _ hline
-    have := hdag dp hdp g n o j x y t hg
+    have := hdag dp hdp g n o j x y t kl hg
     rw [hname] at this
-    exact Or.inr ⟨p, w, hp, hpw, this, o, j, x, y, t, hline⟩
+    exact Or.inr ⟨p, w, hp, hpw, this, o, j, x, y, t, kl, hline⟩
 
 /-- `Asked` survives a change of records that leaves the names of higher rank alone -/
 theorem asked_of_frame (cfg : Cfg) (rank : Name → Nat) (hdag : NameDag cfg.db rank) (S : Name → Prop) (top : Name)
     (e e' : Env) (n : Name) (h : Asked cfg S top e n)
     (hfr : ∀ m, m ≠ n → rank n ≤ rank m → e'.rec? m = e.rec? m) : Asked cfg S top e' n := by
-  rcases asked_rank cfg rank hdag S top e n h with h1 | ⟨p, w, hp, hpw, hr, o, j, x, y, t, hline⟩
+  rcases asked_rank cfg rank hdag S top e n h with h1 | ⟨p, w, hp, hpw, hr, o, j, x, y, t, kl, hline⟩
   · exact Or.inl h1
-  · exact Or.inr ⟨p, w, hp, by rw [hfr p (by intro e; rw [e] at hr; omega) (by omega)]; exact hpw, o, j, x, y, t, hline⟩
+  · exact Or.inr ⟨p, w, hp, by rw [hfr p (by intro e; rw [e] at hr; omega) (by omega)]; exact hpw, o, j, x, y, t, kl, hline⟩
 
 def SuppSpec2 (cfg : Cfg) (S : Name → Prop) (top : Name) (rec : Rec) : Prop :=
   ∀ depth vro n ver vexpr s s', S n → Asked cfg S top s.env n → AlreadyOK cfg.db s.already →
@@ -416,7 +416,7 @@ theorem acts_true_supp2 (cfg : Cfg) (rank : Name → Nat) (S : Name → Prop) (t
     (hnj : NoJust cfg.db S) (rec : Rec) (hrec : RecOK cfg rank rec) (hsp : SuppSpec2 cfg S top rec) (depth : Nat)
     (vro : List VroEnt) (d : Decl) (hc : Canon cfg.db d) (hSd : S d.name) (l : List Act)
     (hl : ∀ a ∈ l, a ∈ d.actions cfg.exact)
-    (hrank : ∀ n o j v x t, Act.dep n o j v x t ∈ l → rank n < rank d.name) :
+    (hrank : ∀ n o j v x t kl, Act.dep n o j v x t kl ∈ l → rank n < rank d.name) :
     ∀ s s', AlreadyOK cfg.db s.already → WellOwned cfg s.env → NoResidue Empty s.env → RecsDeclared cfg.db s.env →
       Supp cfg S top s.env → s.env.rec? d.name = some d.ver →
       acts rec cfg true depth false vro d l s = .ok s' → Supp cfg S top s'.env ∧ RecsDeclared cfg.db s'.env := by
@@ -424,26 +424,26 @@ theorem acts_true_supp2 (cfg : Cfg) (rank : Name → Nat) (S : Name → Prop) (t
   | nil => intro s s' _ _ _ hd hs _ h; simp [acts] at h; subst h; exact ⟨hs, hd⟩
   | cons a rest ih =>
     have hl' : ∀ a ∈ rest, a ∈ d.actions cfg.exact := fun a hm => hl a (List.mem_cons_of_mem _ hm)
-    have hrank' : ∀ n o j v x t, Act.dep n o j v x t ∈ rest → rank n < rank d.name :=
-      fun n o j v x t hm => hrank n o j v x t (List.mem_cons_of_mem _ hm)
+    have hrank' : ∀ n o j v x t kl, Act.dep n o j v x t kl ∈ rest → rank n < rank d.name :=
+      fun n o j v x t kl hm => hrank n o j v x t kl (List.mem_cons_of_mem _ hm)
     intro s s' ha hw hn hd hs hr h
     have htab : tableOf cfg (d.name, d.ver) = d.actions cfg.exact := tableOf_canon cfg d hc
-    by_cases hdep : ∃ n o j v x t, a = .dep n o j v x t
-    · obtain ⟨n, o, j, v, x, t, rfl⟩ := hdep
+    by_cases hdep : ∃ n o j v x t kl, a = .dep n o j v x t kl
+    · obtain ⟨n, o, j, v, x, t, kl, rfl⟩ := hdep
       have hmem := hl _ (List.mem_cons_self)
-      have hline : Act.dep n o j v x t ∈ tableOf cfg (d.name, d.ver) := by rw [htab]; exact hmem
+      have hline : Act.dep n o j v x t kl ∈ tableOf cfg (d.name, d.ver) := by rw [htab]; exact hmem
       obtain ⟨g, hg⟩ := mem_actions d cfg.exact _ hmem
       have hdmem := (lookup_some cfg.db d.prod d hc).1
-      have hSn : S n := hcl d hdmem hSd g n o j v x t hg
-      have hj : j = false := hnj d hdmem hSd g n o j v x t hg
+      have hSn : S n := hcl d hdmem hSd g n o j v x t kl hg
+      have hj : j = false := hnj d hdmem hSd g n o j v x t kl hg
       subst hj
-      have hnr : rank n < rank d.name := hrank n o false v x t (by simp)
+      have hnr : rank n < rank d.name := hrank n o false v x t kl (by simp)
       simp only [acts] at h
       split at h
       · exact ih hl' hrank' s s' ha hw hn hd hs hr h
       · split at h
         · rename_i s1 hr1
-          obtain ⟨hs1, hd1⟩ := hsp _ _ _ _ _ _ _ hSn (Or.inr ⟨d.name, d.ver, hSd, hr, o, false, v, x, t, hline⟩)
+          obtain ⟨hs1, hd1⟩ := hsp _ _ _ _ _ _ _ hSn (Or.inr ⟨d.name, d.ver, hSd, hr, o, false, v, x, t, kl, hline⟩)
             ha hw hn hd hs hr1
           obtain ⟨hn1, hw1⟩ := hrec.spec _ _ _ _ _ _ _ _ _ ha hw hn hr1
           have hrec1 : s1.env.rec? d.name = some d.ver := by
@@ -460,7 +460,7 @@ theorem acts_true_supp2 (cfg : Cfg) (rank : Name → Nat) (S : Name → Prop) (t
           split at h
           · cases h
           · exact ih hl' hrank' ⟨s.env, s.aliases, s.unaliased, s1.already⟩ s' h1 hw hn hd hs hr h
-    · have hnd : ∀ n o j v x t, a ≠ .dep n o j v x t := fun n o j v x t e => hdep ⟨n, o, j, v, x, t, e⟩
+    · have hnd : ∀ n o j v x t kl, a ≠ .dep n o j v x t kl := fun n o j v x t kl e => hdep ⟨n, o, j, v, x, t, kl, e⟩
       rw [acts_cons_nondep rec cfg true depth false vro d a rest s hnd] at h
       have hrecs : ∀ n, (a.apply true d.prod s).env.rec? n = s.env.rec? n := fun n => apply_rec? true d.prod a s n
       have hatab : a ∈ tableOf cfg d.prod := by
@@ -547,12 +547,12 @@ theorem setup_supp2 (cfg : Cfg) (rank : Name → Nat) (hdag : NameDag cfg.db ran
   | succ k ih =>
     intro depth vro n ver vexpr s s' hSn hask ha hw hn hd hs h
     rw [setup_succ_true] at h
-    cases hres : resolve cfg.db cfg.keep s.already n ver vexpr depth vro.length vro with
+    cases hres : resolve cfg.db cfg.path cfg.keep s.already n ver vexpr depth vro.length vro with
     | none => rw [hres] at h; cases h
     | error => rw [hres] at h; cases h
     | found d reason =>
       rw [hres] at h
-      obtain ⟨hc, hname⟩ := resolve_spec cfg.db cfg.keep s.already ha n ver vexpr depth _ _ _ _ hres
+      obtain ⟨hc, hname⟩ := resolve_spec cfg.db cfg.path cfg.keep s.already ha n ver vexpr depth _ _ _ _ hres
       have henv := register_env cfg depth d reason s
       have := install_supp2 cfg rank hdag S top hcl hnj (setup cfg k) (setup_recOK cfg rank hdag k)
         (setup_false_clear cfg S hmd hcl hnj k) ih depth vro d reason hc (by rw [hname]; exact hSn)
@@ -570,7 +570,7 @@ namespace EupsModel.Setup
 /-- every `setupRequired` line of the table of every set-up product of `S` outside `Y` has its target set up -/
 def ReqSat (cfg : Cfg) (S Y : Name → Prop) (e : Env) : Prop :=
   ∀ p v, S p → ¬ Y p → e.rec? p = some v →
-    ∀ m j x y t, Act.dep m false j x y t ∈ tableOf cfg (p, v) → ∃ w, e.rec? m = some w
+    ∀ m j x y t kl, Act.dep m false j x y t kl ∈ tableOf cfg (p, v) → ∃ w, e.rec? m = some w
 
 def ReqSpec (cfg : Cfg) (S : Name → Prop) (rec : Rec) : Prop :=
   ∀ (Y : Name → Prop) depth vro n ver vexpr s s', S n → (depth > 0 ∨ setupProd cfg.db s.env n = none) →
@@ -580,8 +580,8 @@ def ReqSpec (cfg : Cfg) (S : Name → Prop) (rec : Rec) : Prop :=
 
 theorem reqSat_grow {cfg : Cfg} {S Y : Name → Prop} {e e' : Env} (h : ReqSat cfg S Y e) (hg : Grow e e')
     (hsame : ∀ p v, S p → ¬ Y p → e'.rec? p = some v → e.rec? p = some v) : ReqSat cfg S Y e' := by
-  intro p v hp hy hr m j x y t hline
-  obtain ⟨w, hw⟩ := h p v hp hy (hsame p v hp hy hr) m j x y t hline
+  intro p v hp hy hr m j x y t kl hline
+  obtain ⟨w, hw⟩ := h p v hp hy (hsame p v hp hy hr) m j x y t kl hline
   exact ⟨w, hg m w hw⟩
 
 theorem acts_true_req (cfg : Cfg) (S : Name → Prop) (hmd : cfg.maxDepth = none) (hcl : Closed cfg.db S)
@@ -591,18 +591,18 @@ theorem acts_true_req (cfg : Cfg) (S : Name → Prop) (hmd : cfg.maxDepth = none
     ∀ s s', AlreadyOK cfg.db s.already → RecsDeclared cfg.db s.env →
       ReqSat cfg S (fun m => Y m ∨ m = d.name) s.env → acts rec cfg true depth false vro d l s = .ok s' →
       ReqSat cfg S (fun m => Y m ∨ m = d.name) s'.env ∧ Grow s.env s'.env ∧ RecsDeclared cfg.db s'.env ∧
-      (∀ m j x y t, Act.dep m false j x y t ∈ l → ∃ w, s'.env.rec? m = some w) := by
+      (∀ m j x y t kl, Act.dep m false j x y t kl ∈ l → ∃ w, s'.env.rec? m = some w) := by
   induction l with
   | nil => intro s s' _ hd hq h; simp [acts] at h; subst h; exact ⟨hq, fun _ _ h => h, hd, by simp⟩
   | cons a rest ih =>
     have hl' : ∀ a ∈ rest, a ∈ d.actions cfg.exact := fun a hm => hl a (List.mem_cons_of_mem _ hm)
     intro s s' ha hd hq h
-    by_cases hdep : ∃ n o j v x t, a = .dep n o j v x t
-    · obtain ⟨n, o, j, v, x, t, rfl⟩ := hdep
+    by_cases hdep : ∃ n o j v x t kl, a = .dep n o j v x t kl
+    · obtain ⟨n, o, j, v, x, t, kl, rfl⟩ := hdep
       obtain ⟨g, hg⟩ := mem_actions d cfg.exact _ (hl _ (List.mem_cons_self))
       have hdmem := (lookup_some cfg.db d.prod d hc).1
-      have hSn : S n := hcl d hdmem hSd g n o j v x t hg
-      have hj : j = false := hnj d hdmem hSd g n o j v x t hg
+      have hSn : S n := hcl d hdmem hSd g n o j v x t kl hg
+      have hj : j = false := hnj d hdmem hSd g n o j v x t kl hg
       subst hj
       simp only [acts, hmd, Bool.false_or] at h
       simp only [reduceCtorEq, decide_false, Bool.false_eq_true, if_false] at h
@@ -612,11 +612,11 @@ theorem acts_true_req (cfg : Cfg) (S : Name → Prop) (hmd : cfg.maxDepth = none
           ha hd hq hr1
         obtain ⟨hq2, hg2, hd2, hdone2⟩ := ih hl' s1 s' (hal _ _ _ _ _ _ _ _ _ ha (by rw [hr1]; rfl)) hd1 hq1 h
         refine ⟨hq2, fun m w hm => hg2 m w (hg1 m w hm), hd2, ?_⟩
-        intro m j' x' y' t' hm
+        intro m j' x' y' t' kl' hm
         simp only [List.mem_cons] at hm
         rcases hm with hm | hm
         · cases hm; exact ⟨w1, hg2 n w1 hw1⟩
-        · exact hdone2 m j' x' y' t' hm
+        · exact hdone2 m j' x' y' t' kl' hm
       · cases h
       · rename_i s1 hr1
         have h1 : AlreadyOK cfg.db s1.already := hal _ _ _ _ _ _ _ _ _ ha (by rw [hr1]; rfl)
@@ -625,11 +625,11 @@ theorem acts_true_req (cfg : Cfg) (S : Name → Prop) (hmd : cfg.maxDepth = none
         · rename_i hopt
           obtain ⟨hq2, hg2, hd2, hdone2⟩ := ih hl' ⟨s.env, s.aliases, s.unaliased, s1.already⟩ s' h1 hd hq h
           refine ⟨hq2, hg2, hd2, ?_⟩
-          intro m j' x' y' t' hm
+          intro m j' x' y' t' kl' hm
           simp only [List.mem_cons] at hm
           rcases hm with hm | hm
           · cases hm; simp at hopt
-          · exact hdone2 m j' x' y' t' hm
+          · exact hdone2 m j' x' y' t' kl' hm
       · rename_i s1 hr1
         have h1 : AlreadyOK cfg.db s1.already := hal _ _ _ _ _ _ _ _ _ ha (by rw [hr1]; rfl)
         split at h
@@ -637,27 +637,27 @@ theorem acts_true_req (cfg : Cfg) (S : Name → Prop) (hmd : cfg.maxDepth = none
         · rename_i hopt
           obtain ⟨hq2, hg2, hd2, hdone2⟩ := ih hl' ⟨s.env, s.aliases, s.unaliased, s1.already⟩ s' h1 hd hq h
           refine ⟨hq2, hg2, hd2, ?_⟩
-          intro m j' x' y' t' hm
+          intro m j' x' y' t' kl' hm
           simp only [List.mem_cons] at hm
           rcases hm with hm | hm
           · cases hm; simp at hopt
-          · exact hdone2 m j' x' y' t' hm
-    · have hnd : ∀ n o j v x t, a ≠ .dep n o j v x t := fun n o j v x t e => hdep ⟨n, o, j, v, x, t, e⟩
+          · exact hdone2 m j' x' y' t' kl' hm
+    · have hnd : ∀ n o j v x t kl, a ≠ .dep n o j v x t kl := fun n o j v x t kl e => hdep ⟨n, o, j, v, x, t, kl, e⟩
       rw [acts_cons_nondep rec cfg true depth false vro d a rest s hnd] at h
       have hrecs : ∀ n, (a.apply true d.prod s).env.rec? n = s.env.rec? n := fun n => apply_rec? true d.prod a s n
       have hq1 : ReqSat cfg S (fun m => Y m ∨ m = d.name) (a.apply true d.prod s).env := by
-        intro p v hp hy hr m j x y t hline
+        intro p v hp hy hr m j x y t kl hline
         rw [hrecs] at hr
-        obtain ⟨w, hw⟩ := hq p v hp hy hr m j x y t hline
+        obtain ⟨w, hw⟩ := hq p v hp hy hr m j x y t kl hline
         exact ⟨w, by rw [hrecs]; exact hw⟩
       obtain ⟨hq2, hg2, hd2, hdone2⟩ := ih hl' _ s' (by simpa using ha)
         (fun n v h => hd n v (by rw [← hrecs]; exact h)) hq1 h
       refine ⟨hq2, fun m w hm => hg2 m w (by rw [hrecs]; exact hm), hd2, ?_⟩
-      intro m j x y t hm
+      intro m j x y t kl hm
       simp only [List.mem_cons] at hm
       rcases hm with hm | hm
-      · exact absurd hm.symm (hnd m false j x y t)
-      · exact hdone2 m j x y t hm
+      · exact absurd hm.symm (hnd m false j x y t kl)
+      · exact hdone2 m j x y t kl hm
 
 theorem install_req (cfg : Cfg) (S : Name → Prop) (hmd : cfg.maxDepth = none) (hcl : Closed cfg.db S)
     (hnj : NoJust cfg.db S) (hone : OneVersion cfg.db S) (rec : Rec) (hal : AlOK cfg rec) (hrec : ReqSpec cfg S rec)
@@ -685,16 +685,16 @@ theorem install_req (cfg : Cfg) (S : Name → Prop) (hmd : cfg.maxDepth = none) 
         exact ⟨d, hc⟩
       · rw [record_rec?_other d reason s n hn] at hr; exact hd n v hr
     have hq2 : ReqSat cfg S (fun m => Y m ∨ m = d.name) (record d reason s).env := by
-      intro p v hp hy hr m j x y t hline
+      intro p v hp hy hr m j x y t kl hline
       have hne : p ≠ d.name := fun e => hy (Or.inr e)
       rw [record_rec?_other d reason s p hne] at hr
-      obtain ⟨w, hw⟩ := hq p v hp (fun h => hy (Or.inl h)) hr m j x y t hline
+      obtain ⟨w, hw⟩ := hq p v hp (fun h => hy (Or.inl h)) hr m j x y t kl hline
       exact ⟨w, hgrow m w hw⟩
     obtain ⟨hq3, hg3, hd3, hdone3⟩ := acts_true_req cfg S hmd hcl hnj rec hal hrec Y depth vro d hc hSd _ (fun _ hm => hm)
       (record d reason s) s' (alreadyOK_aset cfg.db _ ha d reason hc) hd2 hq2 h
     have hrd : s'.env.rec? d.name = some d.ver := hg3 _ _ (record_rec?_same d reason s)
     refine ⟨?_, fun m w hm => hg3 m w (hgrow m w hm), hd3, ⟨d.ver, hrd⟩⟩
-    intro p v hp hy hr m j x y t hline
+    intro p v hp hy hr m j x y t kl hline
     by_cases hpd : p = d.name
     · subst hpd
       rw [hrd] at hr
@@ -702,8 +702,8 @@ theorem install_req (cfg : Cfg) (S : Name → Prop) (hmd : cfg.maxDepth = none) 
       subst hv
       have : tableOf cfg (d.name, d.ver) = d.actions cfg.exact := tableOf_canon cfg d hc
       rw [this] at hline
-      exact hdone3 m j x y t hline
-    · exact hq3 p v hp (fun h => h.elim hy hpd) hr m j x y t hline
+      exact hdone3 m j x y t kl hline
+    · exact hq3 p v hp (fun h => h.elim hy hpd) hr m j x y t kl hline
   | some sd =>
     rw [hsp] at h
     obtain ⟨hcs, hname, hrs⟩ := setupProd_some cfg.db s.env d.name sd hsp
@@ -713,7 +713,7 @@ theorem install_req (cfg : Cfg) (S : Name → Prop) (hmd : cfg.maxDepth = none) 
       rcases hdepth with h1 | h1
       · exact h1
       · rw [hsp] at h1; cases h1
-    have hskip : ((sd.ver == d.ver || sd.dir == d.dir) && decide (depth > 0)) = true := by simp [hver, hpos]
+    have hskip : ((sd.ver.1 == d.ver.1 || sd.dir == d.dir) && decide (depth > 0)) = true := by simp [hver, hpos]
     simp only [hskip, if_true] at h
     simp at h; subst h
     exact ⟨hq, fun _ _ h => h, hd, ⟨sd.ver, hrs⟩⟩
@@ -726,12 +726,12 @@ theorem setup_req (cfg : Cfg) (S : Name → Prop) (hmd : cfg.maxDepth = none) (h
   | succ k ih =>
     intro Y depth vro n ver vexpr s s' hSn hdepth ha hd hq h
     rw [setup_succ_true] at h
-    cases hres : resolve cfg.db cfg.keep s.already n ver vexpr depth vro.length vro with
+    cases hres : resolve cfg.db cfg.path cfg.keep s.already n ver vexpr depth vro.length vro with
     | none => rw [hres] at h; cases h
     | error => rw [hres] at h; cases h
     | found d reason =>
       rw [hres] at h
-      obtain ⟨hc, hname⟩ := resolve_spec cfg.db cfg.keep s.already ha n ver vexpr depth _ _ _ _ hres
+      obtain ⟨hc, hname⟩ := resolve_spec cfg.db cfg.path cfg.keep s.already ha n ver vexpr depth _ _ _ _ hres
       have henv := register_env cfg depth d reason s
       have := install_req cfg S hmd hcl hnj hone (setup cfg k) (setup_alOK cfg k) ih Y depth vro d reason hc
         (by rw [hname]; exact hSn) (register cfg depth d reason s) s' (by rw [henv, hname]; exact hdepth)
